@@ -600,6 +600,53 @@ def scaling(ks):
     return out
 
 
+# One statement per `while` loop of the parser(s) that the generic corpus does not reach (dialect-specific option lists,
+# routine bodies, dashed names, ...), each with its own dialect: their one-token mutations are the inputs on which a loop whose
+# body consumes nothing on some token would spin.  The loop-progress obligations of tier A name the candidates; three of them
+# were real (see KNOWN_FINDINGS fixed: e1f0cb8, b74b088).
+LOOP_CONSTRUCTS = [
+    ("tsql", "CREATE TABLE t (a INT) WITH (SYSTEM_VERSIONING = ON (HISTORY_TABLE = dbo.h, DATA_CONSISTENCY_CHECK = ON, HISTORY_RETENTION_PERIOD = 3 MONTHS))"),
+    ("tsql", "CREATE TABLE t (a INT) WITH (DATA_DELETION = ON (FILTER_COLUMN = a, RETENTION_PERIOD = 1 DAY))"),
+    ("snowflake", "COPY INTO t FROM @s/path/x FILE_FORMAT = (TYPE = CSV) PATTERN = 'x' ON_ERROR = CONTINUE"),
+    ("redshift", "COPY t FROM 's3://b' IAM_ROLE 'r' FORMAT AS JSON 'auto' REGION 'us'"),
+    ("postgres", "COPY t (a, b) FROM 'f' WITH (FORMAT csv, HEADER true)"),
+    ("", "DESCRIBE copy EXTENDED a . b"),
+    ("trino", "CREATE FUNCTION f(x INT) RETURNS INT BEGIN DECLARE y INT; SET y = 1; IF x > 1 THEN RETURN 1; ELSEIF x > 2 THEN RETURN 2; ELSE RETURN 3; END IF; "
+              "CASE WHEN x = 1 THEN RETURN 1; WHEN x = 2 THEN RETURN 2; END CASE; RETURN y; END"),
+    ("clickhouse", "SELECT COLUMNS('a') APPLY (sum) APPLY (max) FROM t"),
+    ("oracle", "SELECT /*+ LEADING(a b) USE_NL(a) INDEX(t i) */ a FROM t"),
+    ("bigquery", "SELECT * FROM my-project.my-dataset.my-table"),
+    ("snowflake", "SELECT * FROM @db.s/path/to (FILE_FORMAT => 'f')"),
+    ("duckdb", "SELECT CAST(a AS INT[3][2]), ARRAY[1, 2]::INT[], x[1][2] FROM t"),
+    ("postgres", "SELECT CAST(a AS INT ARRAY[3]), CAST(b AS TEXT ARRAY) FROM t"),
+    ("", "SELECT a, b FROM t GROUP BY a, CUBE (b), ROLLUP (a, b), GROUPING SETS ((a), (b)) WITH TOTALS"),
+    ("clickhouse", "SELECT a FROM t GROUP BY a WITH ROLLUP WITH CUBE WITH TOTALS"),
+    ("snowflake", "SELECT * FROM t PIVOT(SUM(x) FOR y IN ('a', 'b') FOR z IN (1, 2)) AS p"),
+    ("", "CREATE TABLE t (a INT, CONSTRAINT c CHECK (a > 1), PRIMARY KEY (a), UNIQUE (a), FOREIGN KEY (a) REFERENCES u (a))"),
+    ("teradata", "CREATE TABLE t (a INT) PRIMARY INDEX (a), INDEX (b) , UNIQUE INDEX i (c)"),
+    ("oracle", "INSERT ALL WHEN a > 1 THEN INTO t (a) VALUES (1) WHEN a > 2 THEN INTO u VALUES (2) ELSE INTO v VALUES (3) SELECT a FROM w"),
+    ("mysql", "UPDATE t SET a = 1, b = 2 FROM u WHERE t.a = u.a ORDER BY a LIMIT 3 RETURNING a"),
+    ("clickhouse", "CREATE DICTIONARY d (a INT) PRIMARY KEY a SOURCE(CLICKHOUSE(HOST 'h' PORT 1 TABLE 't')) LIFETIME(MIN 0 MAX 10) LAYOUT(FLAT())"),
+    ("", "SELECT a -> b ->> c #> d, x << 1 >> 2 | 3 & 4 ^ 5, a ?? b, a || b FROM t"),
+    ("", "SELECT DISTINCT ALL a FROM t UNION ALL SELECT 1 EXCEPT SELECT 2 INTERSECT SELECT 3 ORDER BY 1 LIMIT 1 OFFSET 2 FETCH FIRST 1 ROWS ONLY FOR UPDATE"),
+    ("tsql", "BEGIN SELECT 1; IF x = 1 SELECT 2 ELSE SELECT 3; END"),
+    ("", "SELECT x -> (a, b) -> a.b.c + b.d FROM t"),
+    ("postgres", "CREATE FUNCTION f(x INT) RETURNS INT CALLED ON NULL INPUT LANGUAGE sql IMMUTABLE AS 'SELECT 1'"),
+    ("snowflake", "CREATE TABLE t (a INT AUTOINCREMENT START 1 INCREMENT 1, b INT WITH MASKING POLICY p USING (b)) CLUSTER BY (a) COPY GRANTS"),
+]
+
+
+def loop_construct_items(tier):
+    """(sql, dialect, levels): every one-token mutation of each construct in its own dialect"""
+    lv = ("IMMEDIATE", "RAISE") if tier == "quick" else tuple(LEVELS)
+    out = []
+    for d, sql in LOOP_CONSTRUCTS:
+        out.append((sql, d, tuple(LEVELS)))
+        for m in corpus.mutations(sql, d):
+            out.append((m, d, lv))
+    return list(dict.fromkeys(out))
+
+
 def items_for(tier):
     ds = corpus.dialects()
     others = [d for d in ds if d != ""]
@@ -635,7 +682,9 @@ def items_for(tier):
         stats["char_strings"] = len(ch)
         sc_ = [(x, d, all4 if d == "" else ign) for x in scaling((8, 16, 24)) for d in SCALING_DIALECTS]
         stats["scaling_repetitions"] = len(sc_)
-        items += b + c + sp + ch + sc_
+        lc = loop_construct_items(tier)
+        stats["loop_construct_mutations"] = len(lc)
+        items += b + c + sp + ch + sc_ + lc
     else:
         b = [(m, d, all4) for m in muts for d in ds]
         stats["mutations"] = len(b)
@@ -647,7 +696,9 @@ def items_for(tier):
         stats["char_strings"] = len(ch)
         sc_ = [(x, d, all4) for x in scaling((8, 16, 24, 32, 48)) for d in ds]
         stats["scaling_repetitions"] = len(sc_)
-        items += b + c + sp + ch + sc_
+        lc = loop_construct_items(tier)
+        stats["loop_construct_mutations"] = len(lc)
+        items += b + c + sp + ch + sc_ + lc
     return items, stats
 
 
